@@ -3,7 +3,8 @@
    wt_core), Sem/FsCheck.v (focused Core: wt_fs, unique_binders, ids_bounded), Sem/AxCheck.v
    (non-linear AxCut: wt_ax), Model/LinCheck.v (prog_ok, lin_check_prog), Model/Capacity.v (the
    documented capacity limits of the back ends).  Proofs: Proof/WtPreserve.v, Proof/AxToLin.v,
-   Proof/Codegen{Total,X86,A64,RV}.v, Proof/LinearizeProof.v.
+   Proof/Codegen{Total,X86,A64,RV}.v, Proof/LinearizeProof.v; round 2: Proof/Fun2CoreTy*.v (fun2core),
+   Proof/UqTy*.v + Proof/FocusTy*.v (uniquify + focus), Proof/ShrinkTy*.v (shrink), Proof/WtPipeline.v.
 
    ONE PRESERVATION STATEMENT PER PASS (full strength, `Definition ... : Prop`), then what is proved.
    "accepted" = the model of the real type checker returns COk (Model/Check.v, tied to the Rust
@@ -17,6 +18,9 @@ From SCC Require Import Model.Check Model.Fun2Core Model.Backend Model.Focus Mod
 From SCC Require Import Proof.SubstGraph Proof.CodegenTotal Proof.CodegenX86 Proof.CodegenA64 Proof.CodegenRV
      Proof.AxToLin Proof.LinearizeProof Proof.ShrinkProof Proof.ShrinkSem Proof.ShrinkTyping Proof.WtPreserve Proof.FocusExamples Proof.WtExamples.
 From SCC Require Import Sem.FsFrag2 Proof.ShrinkExample2 Proof.ShrinkTyTop.
+From SCC Require Import Model.Fun2CoreTyGuard Proof.Fun2CoreTyRefute.
+From SCC Require Import Model.Uniquify Model.FocusTyGuard Proof.Fun2CoreProof Proof.Fun2CoreExamples Proof.Fun2CoreTyProg Proof.Fun2CoreTyTotal
+     Proof.Fun2CoreIds Proof.UqTyTop Proof.FocusTyTop Proof.FocusNamesTop Proof.WtPipeline Proof.WtExamples2.
 Import ListNotations.
 
 (* ======================================================================================== *)
@@ -28,16 +32,19 @@ Import ListNotations.
 Definition fun2core_preserves_typing_unguarded : Prop :=
   forall src p, Check.check src = COk p ->
   exists c, compile_prog p = Fun2Core.Ok c /\ wt_core c = true.
-(* the guarded form expected to hold: binders of each definition pairwise distinct and distinct from
-   its parameters (no shadowing, so the capture defect of fun2core cannot strike).  NOT PROVED: it is
-   hypothesis H_fun2core_wt of C12_pipeline_wt_partial and is evaluated on every run on the REAL
-   translation (modelrun wt-stages: wt_core + pre_check on the Rust output of every accepted program). *)
+(* the guarded form of round 1: binders of each definition pairwise distinct and distinct from
+   its parameters (no shadowing, so the capture defect of fun2core cannot strike).  It is hypothesis
+   H_fun2core_wt of C12_pipeline_wt_partial.  Round 2: FALSE as it stands (C12_fun2core_main_result_refuted:
+   a `main` of a non-integer type, and a call of `main`, are accepted and satisfy barendregt); PROVED inside
+   the boolean guard prog_tyguard (C12_fun2core_preserves_typing_fragment2 + C12_fun2core_total_fragment2 +
+   C12_fun2core_pre_check). *)
 Definition fun2core_preserves_typing : Prop :=
   forall src p, Check.check src = COk p -> barendregt p = true ->
   exists c, compile_prog p = Fun2Core.Ok c /\ wt_core c = true /\ pre_check c = true.
 
-(* Core -> focused Core (uniquify + focus).  Totality is PROVED (C12_focus_total_on_typed); the typing
-   of the output is hypothesis H_focus_wt of the composition, evaluated on every run. *)
+(* Core -> focused Core (uniquify + focus).  Totality is PROVED (C12_focus_total_on_typed).  The typing
+   of the output (hypothesis H_focus_wt of the round-1 compositions) is FALSE as it stands and PROVED with
+   two boolean side conditions (round 2: C12_focus_preserves_typing, C12_focus_preserves_typing_unguarded_refuted). *)
 Definition focus_preserves_typing : Prop :=
   forall c, wt_core c = true -> pre_check c = true ->
   exists f, focus_prog c = Backend.Ok f /\ wt_fs f = true /\ unique_binders f = true /\ ids_bounded f = true.
@@ -80,6 +87,73 @@ Theorem C12_fun2core_typing_refuted :
 Proof. exact fun2core_typing_refuted_lemma. Qed.
 Print Assumptions C12_fun2core_typing_refuted.
 
+(* REFUTED a second time, without capture and without a call of main (finding main-non-integer-result):
+   `data Bar { B }  def main(): Bar { B }` is accepted - Program::check never constrains the return type of
+   main - and compile_main types the operand of the final `exit` with the annotation of the body:
+   < B | Bar | mu~ x0. exit x0 >  with x0 : Bar in an integer position.  The program satisfies the Barendregt
+   condition (so H_fun2core_wt / fun2core_preserves_typing as stated above are FALSE as well), has no
+   shadowing risk and calls no main; it is outside prog_tyguard (the body of main must have type i64). *)
+Theorem C12_fun2core_main_result_refuted :
+  exists (src : fprog) (p : fcprog) (c : cprog),
+    has_type_b src = true /\ Check.check src = COk p /\ annotated_fcprog p = true /\
+    compile_prog p = Fun2Core.Ok c /\ wt_core c = false /\
+    shadowing_risk_prog p = false /\ calls_main_prog p = false /\ barendregt p = true /\
+    prog_tyguard p = false.
+Proof. exact fun2core_main_result_refuted_lemma. Qed.
+Print Assumptions C12_fun2core_main_result_refuted.
+
+(* PROVED INSIDE A BOOLEAN GUARD ON THE ANNOTATED CHECKED PROGRAM (round 2).  [prog_tyguard p]
+   (Model/Fun2CoreTyGuard.v) = for every definition
+     tg   the annotated body is well typed at its own annotations, every type compared after compile_ty, every
+          signature looked up in the COMPILED declarations (operands i64; branches / let body / case clauses at
+          the type of the term; arguments follow the callee / the xtor; clauses follow the xtors of the type in
+          declaration order with pairwise distinct parameters; the type of every let variable, goto target,
+          label, argument position and definition parameter is declared) - ALL term forms: data and codata, `new`,
+          destructors, labels/goto, consumer arguments;
+     NOT shadowing_risk   the syntactic detector of the known finding capture-under-binder (the one modelrun uses):
+          the translation never places a continuation under a let variable / clause parameter whose name is free in it;
+     no call of `main` (known finding call-to-main);  the body of `main` has type i64 (finding main-non-integer-result);
+     parameters pairwise distinct and of declared types;
+   and for the program: type names pairwise distinct and different from _Cont, xtor names distinct within a type,
+   definition names distinct (what check_core asks of declarations).
+   Key lemma (Proof/Fun2CoreTyShare.v share_ok, Proof/CoreTyFv.v typed_in_own_fvs): a lifted definition
+   share_<f>_<n> is well typed - its parameter list, core_lang's TypedFreeVars of the body, holds each free name
+   once with its binder's kind and type, the types are declared, the body is typed in it - and the call that replaces
+   the continuation is typed wherever the continuation was.  The continuation's invariant under binders is
+   Kripke-style (KT): it stays typed in every scope that agrees on its free user names and on the generated names.
+   On the real inputs of ./check C12 every accepted program outside the guard is a shadow-risk program
+   (tags f2c-guard / f2c-noguard:<why> of the wt-stages run). *)
+Theorem C12_fun2core_preserves_typing_fragment2 : forall p c,
+  prog_tyguard p = true -> compile_prog p = Fun2Core.Ok c -> wt_core c = true.
+Proof. exact fun2core_preserves_typing_frag2. Qed.
+Print Assumptions C12_fun2core_preserves_typing_fragment2.
+
+(* ... and inside the guard the translation has no internal failure (the model's only failure is
+   `.expect("Types should be annotated before translation")`) *)
+Theorem C12_fun2core_total_fragment2 : forall p, prog_tyguard p = true -> exists c, compile_prog p = Fun2Core.Ok c.
+Proof. exact fun2core_total_guarded. Qed.
+Print Assumptions C12_fun2core_total_fragment2.
+
+(* Every output of fun2core satisfies C03's precondition pre_check (every variable identifier is Identifier::new,
+   id 0, and max_id = 0) - for ALL programs, no guard.  Discharges the stage-output hypothesis `pre_check c` of the
+   compositions (C01, C12) for fun2core outputs. *)
+Theorem C12_fun2core_pre_check : forall p c, compile_prog p = Fun2Core.Ok c -> pre_check c = true.
+Proof. exact fun2core_pre_check. Qed.
+Print Assumptions C12_fun2core_pre_check.
+
+(* non-vacuity: the five multi-definition programs of Proof/Fun2CoreExamples.v (recursion; shared continuations -
+   at least two share_ definitions; data with case; labels/goto and a label passed as consumer argument; codata
+   with `new`, destructors and by-name values) satisfy the guard; the conclusion and the side conditions of the
+   focusing theorem are evaluated too.  The witnesses of the three known findings are outside the guard. *)
+Theorem C12_fun2core_fragment2_examples :
+  (f2c_ok ex_calls = true /\ f2c_ok ex_shared = true /\ f2c_ok ex_data = true /\ f2c_ok ex_labels = true /\ f2c_ok ex_codata = true) /\
+  (2 <= List.length (cpdefs (compiled_or_empty ex_shared)) - 2)%nat /\
+  (prog_tyguard capture_witness = false /\ prog_tyguard call_main_witness = false /\
+   prog_tyguard WtDefs.capture_typing_witness = false /\ prog_tyguard main_nonint_witness = false).
+Proof. exact (conj f2c_examples_ok (conj shared_example_lifts guard_rejects_witnesses)). Qed.
+Print Assumptions C12_fun2core_fragment2_examples.
+
+
 (* ======================================================================================== *)
 (* Core -> focused Core                                                                     *)
 (* ======================================================================================== *)
@@ -98,6 +172,71 @@ Print Assumptions C12_wt_core_focus_wf.
 Theorem C12_focus_total_on_typed : forall c, wt_core c = true -> exists f, focus_prog c = Backend.Ok f.
 Proof. exact focus_total_wt. Qed.
 Print Assumptions C12_focus_total_on_typed.
+
+(* `uniquify` preserves typing (round 2): alpha-renaming of the binders whose id is 0, by the shadow-aware
+   simultaneous substitution of variables for variables.  Hypothesis beyond typing: every variable id <= max_id
+   (part of pre_check), so that the fresh names are new.  Calls are re-typed against the renamed parameter lists. *)
+Theorem C12_uniquify_preserves_typing : forall c c1,
+  wt_core c = true -> forallb (ids_le_def (cpmax c)) (cpdefs c) = true -> uniquify_prog c = Backend.Ok c1 -> wt_core c1 = true.
+Proof. exact uniquify_preserves_typing. Qed.
+Print Assumptions C12_uniquify_preserves_typing.
+
+(* focus_preserves_typing, second half, PROVED (round 2) with two boolean side conditions:
+     xtor_tys_ok c   the field types of all xtors are declared (wt_core does not ask; focusing cuts every non-variable
+                     argument AT THE FIELD TYPE and wt_fs demands a declared type at every cut) - the second half of
+                     decls_ok, which the shrinking theorem needs of the focused program anyway;
+     names_le c      the ids of the definition NAMES are <= max_id (ids_bounded looks at them; fun2core emits 0).
+   Conclusion: the focused program is typed by Sem/FsCheck.v (lookup by numeric id), its binders are distinct along
+   every path, all ids are <= the new max_id, and the binders of each definition are GLOBALLY distinct (gub) - all that
+   C12_shrink_preserves_typing_fragment2 consumes except names_ok and decls_ok.
+   Proof: Proof/UqTy*.v (uniquify), Proof/FocusTy.v (the CPS of focus.rs with a typing invariant for continuations:
+   a continuation built at counter m yields a typed statement in every extension of its scope by ids above m, for every
+   binding of the right kind and type in scope; named continuations of pres03's Proof/FocusKont.v), binder facts from
+   C03's specifications of the two passes. *)
+Theorem C12_focus_preserves_typing : forall c f,
+  wt_core c = true -> pre_check c = true -> xtor_tys_ok c = true -> names_le c = true ->
+  focus_prog c = Backend.Ok f ->
+  wt_fs f = true /\ unique_binders f = true /\ ids_bounded f = true /\ gub f = true.
+Proof. exact focus_preserves_typing_thm. Qed.
+Print Assumptions C12_focus_preserves_typing.
+
+(* ... and the two remaining conjuncts of frag2t_prog, the fragment of the shrinking theorem:
+   names_ok  after Prog::focus identifiers with the same id are spelled alike: every occurrence is, by id, the first
+             binding of its scope with that id and carries its name (no side condition beyond typing and pre_check);
+   decls_ok  parameter types stay declared through uniquify + focus (wt_core checks them), the field types are those of
+             the input (xtor_tys_ok). *)
+Theorem C12_focus_names_ok : forall c f,
+  wt_core c = true -> pre_check c = true -> focus_prog c = Backend.Ok f -> FsFrag2.names_ok f = true.
+Proof. exact focus_names_thm. Qed.
+Print Assumptions C12_focus_names_ok.
+Theorem C12_focus_decls_ok : forall c f,
+  wt_core c = true -> pre_check c = true -> xtor_tys_ok c = true -> focus_prog c = Backend.Ok f -> FsFrag2.decls_ok f = true.
+Proof. exact focus_decls_ok. Qed.
+Print Assumptions C12_focus_decls_ok.
+
+(* ... and without the two side conditions the statement - hypothesis H_focus_wt of C12_pipeline_wt_partial /
+   _fragment2, and [focus_preserves_typing] above - is FALSE:
+   (1) def main_5() { exit 0 } with max_id = 0 is wt_core and pre_check; the focused program is typed but the id of the
+       definition name exceeds max_id (ids_bounded = false);
+   (2) data T { K(x: U) } with U undeclared, def main() { < K(mu a. exit 0) | T | mu~ z. exit 0 > } is wt_core and
+       pre_check; focusing emits a cut at U and wt_fs rejects it.
+   Mismatches between the checkers (as for shrinking), not defects of focus.rs. *)
+Theorem C12_focus_preserves_typing_unguarded_refuted :
+  ~ H_focus_wt /\
+  (wt_core focus_wt_witness1 = true /\ pre_check focus_wt_witness1 = true /\ names_le focus_wt_witness1 = false /\
+   exists f, focus_prog focus_wt_witness1 = Backend.Ok f /\ wt_fs f = true /\ ids_bounded f = false) /\
+  (wt_core focus_wt_witness2 = true /\ pre_check focus_wt_witness2 = true /\ xtor_tys_ok focus_wt_witness2 = false /\
+   exists f, focus_prog focus_wt_witness2 = Backend.Ok f /\ wt_fs f = false).
+Proof. exact (conj H_focus_wt_refuted focus_wt_witnesses). Qed.
+Print Assumptions C12_focus_preserves_typing_unguarded_refuted.
+
+(* non-vacuity: on the fun2core outputs of the five example programs all hypotheses hold and the conclusion, names_ok
+   and decls_ok evaluate to true *)
+Theorem C12_focus_examples :
+  focus_ok ex_calls = true /\ focus_ok ex_shared = true /\ focus_ok ex_data = true /\ focus_ok ex_labels = true /\ focus_ok ex_codata = true.
+Proof. exact focus_examples_ok. Qed.
+Print Assumptions C12_focus_examples.
+
 
 (* ======================================================================================== *)
 (* focused Core -> AxCut                                                                    *)
@@ -245,7 +384,9 @@ Print Assumptions C12_codegen_total_rv.
 (* The composition                                                                          *)
 (* ======================================================================================== *)
 
-(* THE PROPERTY, with the unproved links as hypotheses (their types say what is missing):
+(* THE PROPERTY as composed in round 1, with the then unproved links as hypotheses (round 2: all three links are
+   proved in guarded form and C12_pipeline_wt / C12_pipeline_wt_source below have no hypothesis of this kind; each of the
+   three hypotheses is false as it stands, so this theorem is kept for the record only):
      H_fun2core_wt = fun2core_preserves_typing (guarded by barendregt),
      H_focus_wt    = the typing half of focus_preserves_typing,
      H_shrink_wt   = the typing half of shrink_preserves_typing.
@@ -285,6 +426,58 @@ Theorem C12_pipeline_wt_fragment2 :
     (forall lc, within_capacity_rv l = true -> exists code lc', rv_compile l lc = Backend.Ok (code, main_arity l, lc')).
 Proof. exact pipeline_wt_fragment2_lemma. Qed.
 Print Assumptions C12_pipeline_wt_fragment2.
+
+(* THE COMPOSITION WITH NO TYPING HYPOTHESIS LEFT (round 2).  Hypotheses: the boolean guard prog_tyguard on the
+   annotated checked program, and two boolean conditions on ONE STAGE OUTPUT:
+     names_ok f, decls_ok f      of the focused program (identifiers with equal ids spelled alike; parameter and field
+                                 types declared - the checker's output is not closed under the types it mentions, C15).
+   (pre_check of the Core program, a hypothesis of the older compositions, is proved: C12_fun2core_pre_check.)
+   Conclusion: every stage succeeds (no internal failure), every intermediate program is accepted by its checker and
+   each code generator returns Ok within its documented capacity.  Replaces H_fun2core_wt and H_focus_wt of
+   C12_pipeline_wt_fragment2 (H_focus_wt is false as stated, see above; H_fun2core_wt is false by
+   C12_fun2core_main_result_refuted). *)
+Theorem C12_pipeline_wt : forall p,
+  prog_tyguard p = true ->
+  (forall c f, compile_prog p = Fun2Core.Ok c -> focus_prog c = Backend.Ok f ->
+     FsFrag2.names_ok f = true /\ FsFrag2.decls_ok f = true) ->
+  exists c f a,
+    compile_prog p = Fun2Core.Ok c /\ wt_core c = true /\
+    focus_prog c = Backend.Ok f /\ wt_fs f = true /\
+    shrink_prog f = SOk a /\ AxCheck.wt_ax a = true /\ prog_ok a = true /\
+    let l := linearize a in
+    lin_check_prog l = true /\
+    (forall lc, within_capacity_x86 l = true -> exists code lc', x86_compile l lc = Backend.Ok (code, main_arity l, lc')) /\
+    (forall lc, within_capacity_a64 l = true -> exists code lc', a64_compile l lc = Backend.Ok (code, main_arity l, lc')) /\
+    (forall lc, within_capacity_rv l = true -> exists code lc', rv_compile l lc = Backend.Ok (code, main_arity l, lc')).
+Proof. exact pipeline_wt_lemma. Qed.
+Print Assumptions C12_pipeline_wt.
+
+(* THE SAME WITH GUARDS ON THE SOURCE PROGRAM ONLY: names_ok and decls_ok of the focused program are proved
+   (C12_focus_names_ok, C12_focus_decls_ok); what remains is the boolean xtor_tys_guard p - the field types of all
+   (compiled) xtors are declared.  It is not implied by acceptance: the real checker's output is not closed under the
+   types it mentions (C15: a never-used xtor can carry a field of a never-declared type), and such programs are outside
+   (tag pipe-noguard:xtor-types).  So: for every annotated checked program that is well typed in the boolean sense of
+   tg, has no capture risk, does not call main, has an integer main and declared field types, ALL stages succeed, every
+   intermediate program is well-scoped and well-typed in its own language, and the three code generators return Ok
+   within their documented capacities. *)
+Theorem C12_pipeline_wt_source : forall p,
+  prog_tyguard p = true -> xtor_tys_guard p = true ->
+  exists c f a,
+    compile_prog p = Fun2Core.Ok c /\ wt_core c = true /\
+    focus_prog c = Backend.Ok f /\ wt_fs f = true /\
+    shrink_prog f = SOk a /\ AxCheck.wt_ax a = true /\ prog_ok a = true /\
+    let l := linearize a in
+    lin_check_prog l = true /\
+    (forall lc, within_capacity_x86 l = true -> exists code lc', x86_compile l lc = Backend.Ok (code, main_arity l, lc')) /\
+    (forall lc, within_capacity_a64 l = true -> exists code lc', a64_compile l lc = Backend.Ok (code, main_arity l, lc')) /\
+    (forall lc, within_capacity_rv l = true -> exists code lc', rv_compile l lc = Backend.Ok (code, main_arity l, lc')).
+Proof. exact pipeline_wt_source_lemma. Qed.
+Print Assumptions C12_pipeline_wt_source.
+(* non-vacuity: the five example programs satisfy both source guards *)
+Theorem C12_pipeline_wt_source_examples :
+  forallb (fun p => prog_tyguard p && xtor_tys_guard p) [ex_calls; ex_shared; ex_data; ex_labels; ex_codata] = true.
+Proof. vm_compute. reflexivity. Qed.
+Print Assumptions C12_pipeline_wt_source_examples.
 
 (* the hypotheses are the statements above *)
 Theorem C12_hypotheses_are_the_statements :
